@@ -38,37 +38,42 @@ theorem InvC.forkPoint {s : TM} (h : InvC s) (p : Point) : InvC (forkPoint s p) 
 
 theorem startTask_closed (s : TM) (d : TaskDef) : (startTask s d).closed = s.closed := by
   unfold startTask
-  by_cases h : d.dbrps.isEmpty = true <;> simp [h, newFork]
+  by_cases h : d.dbrps.isEmpty = true <;> by_cases h2 : (s.tasks d.id).isSome = true <;> simp [h, h2, newFork]
 
 theorem startTask_sent (s : TM) (d : TaskDef) : (startTask s d).sentOnClosed = s.sentOnClosed := by
   unfold startTask
-  by_cases h : d.dbrps.isEmpty = true <;> simp [h, newFork]
+  by_cases h : d.dbrps.isEmpty = true <;> by_cases h2 : (s.tasks d.id).isSome = true <;> simp [h, h2, newFork]
 
-theorem startTask_nextEdge {s : TM} {d : TaskDef} (h : d.dbrps ≠ []) : (startTask s d).nextEdge = s.nextEdge + 1 := by
+theorem startTask_nextEdge {s : TM} {d : TaskDef} (h : d.dbrps ≠ []) (hn : s.tasks d.id = none) :
+    (startTask s d).nextEdge = s.nextEdge + 1 := by
   have : d.dbrps.isEmpty = false := by simpa using h
-  simp [startTask, this, newFork]
+  simp [startTask, this, hn, newFork]
 
-theorem InvC.startTask {s : TM} (h : InvC s) (d : TaskDef) : InvC (startTask s d) := by
+theorem InvC.startTask {s : TM} (h : InvC s) (d : TaskDef) : InvC (Kap.C02.startTask s d) := by
   by_cases hd : d.dbrps = []
   · rw [startTask_nodbrp hd]; exact h
+  cases hx : s.tasks d.id with
+  | some e0 => rw [startTask_executing (by simp [hx])]; exact h
+  | none =>
+  have hn := hx
   constructor
   · intro k id e hm
     rw [startTask_closed]
-    rcases (mem_startTask_forks hd).mp hm with ⟨hm', _⟩ | ⟨_, heq⟩
+    rcases (mem_startTask_forks hd hn).mp hm with ⟨hm', _⟩ | ⟨_, heq⟩
     · exact h.openE k id e hm'
     · obtain ⟨_, rfl⟩ := Prod.mk.inj heq
       intro hc
       have := h.fresh _ hc
       simp at this
   · intro k id e hm
-    rw [startTask_nextEdge hd]
-    rcases (mem_startTask_forks hd).mp hm with ⟨hm', _⟩ | ⟨_, heq⟩
+    rw [startTask_nextEdge hd hn]
+    rcases (mem_startTask_forks hd hn).mp hm with ⟨hm', _⟩ | ⟨_, heq⟩
     · exact Nat.lt_succ_of_lt (h.bound k id e hm')
     · obtain ⟨_, rfl⟩ := Prod.mk.inj heq
       simp
   · intro e he
     rw [startTask_closed] at he
-    rw [startTask_nextEdge hd]
+    rw [startTask_nextEdge hd hn]
     exact Nat.lt_succ_of_lt (h.fresh e he)
   · rw [startTask_sent]; exact h.good
 
@@ -113,9 +118,10 @@ theorem InvC.stopTask {s : TM} (hi : Inv s) (h : InvC s) (id : String) : InvC (s
       · exact h.bound k' id e hk'
     · rw [stopTask_sent]; exact h.good
 
-theorem InvC.startTaskFail {s : TM} (hi : Inv s) (h : InvC s) {d : TaskDef} (hn : s.tasks d.id = none) :
-    InvC (startTaskFail s d) := by
-  rw [startTaskFail_eq hn]; exact (h.startTask d).stopTask (hi.startTask hn) d.id
+theorem InvC.startTaskFail {s : TM} (hi : Inv s) (h : InvC s) (d : TaskDef) : InvC (Kap.C02.startTaskFail s d) := by
+  cases hx : s.tasks d.id with
+  | none => rw [startTaskFail_eq hx]; exact (h.startTask d).stopTask (hi.startTask hx) d.id
+  | some e => rw [startTaskFail_executing (by simp [hx])]; exact h
 
 theorem forkBatch_invC {db rp : String} (pts : List RawPoint) :
     ∀ s : TM, InvC s → InvC (pts.foldl (fun s r => forkPoint s (mkPoint db rp r)) s) := by
@@ -124,69 +130,21 @@ theorem forkBatch_invC {db rp : String} (pts : List RawPoint) :
   | cons r rest ih => intro s h; exact ih _ (h.forkPoint _)
 
 /-- Reached states keep every registered edge open and have never collected on a closed edge. -/
-theorem invC_fold (ops : List Op) :
-    ∀ (s : TM) (run : List String), Inv s → InvC s → (∀ id, id ∈ run ↔ (s.tasks id).isSome) → wfFrom run ops = true →
-      InvC (ops.foldl step s) := by
+theorem invC_fold (ops : List Op) : ∀ (s : TM), Inv s → InvC s → InvC (ops.foldl step s) := by
   induction ops with
-  | nil => intro s run _ hc _ _; exact hc
+  | nil => intro s _ hc; exact hc
   | cons op rest ih =>
-    intro s run hi hc hrun hwf
+    intro s hi hc
     rw [List.foldl_cons]
+    refine ih _ (hi.step op) ?_
     cases op with
-    | start d =>
-      by_cases hd : d.dbrps = []
-      · have hwf' : wfFrom run rest = true := by simpa [wfFrom, hd] using hwf
-        have : step s (.start d) = s := by simp [step, stepWith, startTask_nodbrp hd]
-        rw [this]; exact ih s run hi hc hrun hwf'
-      · have hde : d.dbrps.isEmpty = false := by simpa using hd
-        simp only [wfFrom, hde, Bool.false_eq_true, if_false, Bool.and_eq_true, Bool.not_eq_true',
-          List.contains_eq_mem, decide_eq_false_iff_not] at hwf
-        have hn : s.tasks d.id = none := by
-          cases hx : s.tasks d.id with
-          | none => rfl
-          | some e => exact absurd ((hrun d.id).mpr (by simp [hx])) hwf.1
-        refine ih _ (d.id :: run) (hi.startTask hn) (hc.startTask d) ?_ hwf.2
-        intro id
-        show id ∈ d.id :: run ↔ ((startTask s d).tasks id).isSome
-        rw [startTask_tasks hd]
-        by_cases hid : id = d.id
-        · simp [hid, upd]
-        · simp [hid, upd, hrun id]
-    | startfail d =>
-      simp only [wfFrom, Bool.and_eq_true, Bool.not_eq_true', List.contains_eq_mem, decide_eq_false_iff_not] at hwf
-      have hn := not_running hrun hwf.1
-      refine ih _ run (hi.startTaskFail hn) (hc.startTaskFail hi hn) ?_ hwf.2
-      intro id
-      show id ∈ run ↔ ((startTaskFail s d).tasks id).isSome
-      rw [startTaskFail_tasks]; exact hrun id
-    | stop id =>
-      have hwf' : wfFrom (run.filter (· != id)) rest = true := by simpa [wfFrom] using hwf
-      refine ih _ _ (hi.stopTask id) (hc.stopTask hi id) ?_ hwf'
-      intro id'
-      show id' ∈ run.filter (· != id) ↔ ((stopTask s id).tasks id').isSome
-      rw [stopTask_tasks_apply]
-      by_cases hid : id' = id
-      · simp [hid]
-      · simp [hid, hrun id']
-    | delete id =>
-      have hwf' : wfFrom (run.filter (· != id)) rest = true := by simpa [wfFrom] using hwf
-      refine ih _ _ (hi.stopTask id) (hc.stopTask hi id) ?_ hwf'
-      intro id'
-      show id' ∈ run.filter (· != id) ↔ ((stopTask s id).tasks id').isSome
-      rw [stopTask_tasks_apply]
-      by_cases hid : id' = id
-      · simp [hid]
-      · simp [hid, hrun id']
-    | write db rp pts =>
-      have hwf' : wfFrom run rest = true := by simpa [wfFrom] using hwf
-      obtain ⟨h1, h2, _, _⟩ := forkBatch (db := db) (rp := if (rp == "") = true then s.defaultRP else rp) "" 0 pts s hi
-      refine ih _ run h1 (forkBatch_invC pts s hc) ?_ hwf'
-      intro id
-      show id ∈ run ↔ ((writePointsWith forkPoint s db rp pts).tasks id).isSome
-      unfold writePointsWith
-      rw [h2]; exact hrun id
+    | start d => exact hc.startTask d
+    | startfail d => exact hc.startTaskFail hi d
+    | stop id => exact hc.stopTask hi id
+    | delete id => exact hc.stopTask hi id
+    | write db rp pts => exact forkBatch_invC pts s hc
 
-theorem run_invC (drp : String) (ops : List Op) (hwf : WF ops) : InvC (run drp ops) :=
-  invC_fold ops (init drp) [] (Inv.init drp) (InvC.init drp) (by simp [init]) hwf
+theorem run_invC (drp : String) (ops : List Op) : InvC (run drp ops) :=
+  invC_fold ops (init drp) (Inv.init drp) (InvC.init drp)
 
 end Kap.C02
